@@ -254,6 +254,14 @@ func runC01(c *Ctx) {
 	c.Rule("C01-D5", "read limits agree with the announced limit (shared with C13-D2/D4): every websocket connection gets SetReadLimit on all paths, the announced maxPayload is the enforced field", 4)
 	websocketReadLimit(c, "C01-D5")
 	announcedEqualsEnforced(c, "C01-D5")
+
+	c.Rule("C01-D7", "the client's polling batcher neither skips nor oversizes (shared with C13-D3): after a batch was cut at maxPayload the scan restarts at the first remaining packet, prefix sent and suffix kept are cut at the same index, "+
+		"the remainder is always sent — a batch above maxPayload is answered 413 and the transport closed, every event in it lost", 5)
+	batcherShape(c, "C01-D7")
+
+	c.Rule("C01-D8", "transport upgrade keeps packets whole (shared with C02-D5/C07-D2): the swap, the flush of the old transport's queue onto the new one and the UPGRADE bookkeeping happen in one write-locked region, "+
+		"so a concurrent Send cannot land between a binary event's header and its attachments", 12)
+	swapRegion(c, "C01-D8")
 }
 
 func dispatchKeys(c *Ctx, rule string) {
